@@ -341,6 +341,8 @@ _unused: HashMismatch
     ensures
         // C25: success is reported only for one of the three ways of being up to date
         res matches Ok(true) ==> update_ok(current, *old(self).path, *old(self).rpki_notify),
+        // C29: "the update failed" means: no notification file could be had, or the snapshot update failed
+        res matches Ok(false) ==> update_failed(*old(self).path, *old(self).rpki_notify),
         // C41 + C25: no answer of the server (HTTP failure, bad XML, bad or conflicting deltas, a broken
         // snapshot) makes the update return the run-level error; that only follows a local file fault
         res is Err ==> exists|p: PathBuf| #[trigger] local_archive_fault(p),
@@ -351,19 +353,71 @@ _unused: HashMismatch
 //@ fn RepositoryUpdate::try_update
 //@ spec
     ensures
-        // C25: the repository is reported as updated only if the update succeeded (see update_ok),
-        // for the copy found at the repository's path with the state record loaded from it;
-        // every failure is reported as Current / Stale / Unavailable, never as Updated
-        res matches Ok(r) ==> (r.0 matches LoadResult::Updated(repo) ==>
-            repo.path_spec() == *self.path
-            && exists|cur: Option<(RrdpArchive, RepositoryState)>|
-                (cur matches Some(c) ==> c.0.path_spec() == *self.path && c.1 == c.0.state())
-                && #[trigger] update_ok(cur, *self.path, *self.rpki_notify)),
+        // `cur`: the local copy the call found at the repository's path (None: no usable copy); see `classified`
+        res is Ok ==> exists|cur: Option<(RrdpArchive, RepositoryState)>|
+            #[trigger] classified_result(cur, *self.path, *self.rpki_notify, res),
         // C41 + C25: the run-level error only after a fault of a local file
         res is Err ==> exists|p: PathBuf| #[trigger] local_archive_fault(p),
-//@ closure 1
-|current: &(RrdpArchive, RepositoryState)| -> (r: Option<DateTime<Utc>>) ensures true
+//@ exit
+        // the witness: the copy this call opened (binding `current`) and the result it is about to return
+        proof {
+            // C25 + C29: the copy the classification is about is the one found at the path (or none was found)
+            assert(local_copy(*self.path, current));
+            // C25: Updated only after a successful update of that copy
+            assert(res matches LoadResult::Updated(repo) ==> repo.path_spec() == *self.path && update_ok(current, *self.path, *self.rpki_notify));
+            // C29: a successful update is reported as Updated
+            assert(!(res is Updated) ==> update_failed(*self.path, *self.rpki_notify));
+            // C29: failed update: no copy => Unavailable, unexpired copy => Current, expired copy => Stale
+            assert(!(res is Updated) ==> failed_outcome(current, res));
+            assert(classified(current, *self.path, *self.rpki_notify, res));
+            assert(classified_result(current, *self.path, *self.rpki_notify, Ok((res, self_.metrics))));
+        }
+//@ closure and_then 1
+|current: &(RrdpArchive, RepositoryState)| -> (r: Option<DateTime<Utc>>) ensures r == current.1.best_before_spec()
 //@ global
+spec fn classified_result(cur: Option<(RrdpArchive, RepositoryState)>, path: PathBuf, uri: Https,
+                          r: Result<(LoadResult<Repository>, RrdpRepositoryMetrics), RunFailed>) -> bool {
+    r matches Ok(v) ==> classified(cur, path, uri, v.0)
+}
+// What RepositoryUpdate::try_update reports (`lr`) for the local copy `cur` it found at `path`:
+spec fn classified(cur: Option<(RrdpArchive, RepositoryState)>, path: PathBuf, uri: Https, lr: LoadResult<Repository>) -> bool {
+    &&& local_copy(path, cur)
+    // C25: the repository is reported as updated only if the update succeeded (see update_ok), for that
+    // copy with the state record loaded from it; never for a failure
+    &&& (lr matches LoadResult::Updated(repo) ==> repo.path_spec() == path && update_ok(cur, path, uri))
+    // C29: a successful update is reported as Updated: anything else means the update failed ...
+    &&& (!(lr is Updated) ==> update_failed(path, uri))
+    // C29: ... and a failed update is classified by the copy that was found: none => Unavailable;
+    // best-before not passed (at the clock reading taken in the call) => Current; passed => Stale
+    &&& (!(lr is Updated) ==> failed_outcome(cur, lr))
+}
+
+// the local copy found at `path`: an archive there with the state record loaded from it, or none
+spec fn local_copy(path: PathBuf, cur: Option<(RrdpArchive, RepositoryState)>) -> bool {
+    match cur {
+        Some(c) => c.0.path_spec() == path && c.1 == c.0.state(),
+        None => no_usable_copy(path),
+    }
+}
+spec fn update_failed(path: PathBuf, uri: Https) -> bool {
+    // no notification file, a failed snapshot update, or a `304 Not Modified` although there is no copy
+    notification_failed(uri) || snapshot_failed(path) || not_modified_received(uri)
+}
+// C29, written from the property statement: how a FAILED update is reported
+spec fn failed_outcome(cur: Option<(RrdpArchive, RepositoryState)>, r: LoadResult<Repository>) -> bool {
+    match cur {
+        // failed with no local copy
+        None => r is Unavailable,
+        Some(c) =>
+            // failed with a copy that is still current
+            if !c.1.expired_now() { r is Current }
+            // failed with an expired copy
+            else if c.1.best_before_spec() is Some { r is Stale }
+            // (a copy whose best-before is not even a valid time counts as no copy)
+            else { r is Unavailable },
+    }
+}
+
 // the copy `a` holds the content of the session and serial its state record `s` names
 spec fn copy_consistent(a: RrdpArchive, s: RepositoryState) -> bool {
     serial_reached(a.objects(), s.session, s.serial)
